@@ -123,6 +123,17 @@ var2sym = {v: k for k, v in sym2var.items()}
 SYM_PREFIX = {'Minus': '-', 'Not': 'NOT', 'Bang': '!', 'Tilde': '~'}
 for v in ck.violations:
     w = v['witness']
+    if 'postfix' in w:
+        if w['prefixes']:
+            text = SYM_PREFIX[w['prefixes'][0]] + ' 0 ' + w['postfix']
+            want = {'unary': PREFIX_OP[w['prefixes'][0]], 'of': {'postfix': w['postfix'], 'of': 0}}
+        else:
+            text = '0 ' + var2sym[w['ops'][0]] + ' 1 ' + w['postfix']
+            want = [w['ops'][0], 0, {'postfix': w['postfix'], 'of': 1}]
+        rep = Replay.call({'op': 'parse_grouping', 'text': text})
+        v['native'] = dict(rep, text=text)
+        v['replayed'] = rep.get('expr_parser') != want or rep.get('stmt_parser') != want
+        continue
     if 'prefixes' in w:
         text = ' '.join(SYM_PREFIX[p_] for p_ in w['prefixes']) + ' 0'
         rep = Replay.call({'op': 'parse_grouping', 'text': text})
